@@ -1,2 +1,306 @@
+"""C32 host level: launch traces of the REAL step()/forward() under toggled flags (side condition: enumeration over concrete
+flag words; the per-term gating is decided by the solver queries in c32.py) + the ACTUATION / activation-advance query.
+
+Expected trace differences are written from the structure of MuJoCo's mj_forward / mj_step (engine_forward.c):
+  CONSTRAINT   no collision, no constraint rows            CONTACT      no collision, no contact rows
+  EQUALITY / FRICTIONLOSS / LIMIT   their row builders only
+  GRAVITY      no gravity-compensation force, world acceleration zero, passive sum without gravcomp, (energy: no gravity term)
+  ACTUATION    no actuator forces (zeroed) and activations are NOT advanced
+  SENSOR       no sensor stages                            EULERDAMP / DAMPER   no implicit damping solve in Euler
+  WARMSTART    solver initialisation specialised without warmstart
+  CLAMPCTRL / REFSAFE / SPRING / DAMPER   the flag word reaches the kernels that gate on it (scalar arguments)
+  ENERGY (enable)   adds the energy kernels only
+"""
+
+import collections
+import inspect
+import json
+import os
+
+import z3
+
+from wsym import core, kh, report
+
+PID = "C32"
+
+SCRATCH = {"tmp", "empty", None}
+
+
+def sig(e):
+  if e.kind in ("launch", "launch_tiled"):
+    cl = {}
+    try:
+      cl = {k: (int(v) if not isinstance(v, float) else v) for k, v in inspect.getclosurevars(e.kernel.func).nonlocals.items() if isinstance(v, (bool, int, float))}
+    except Exception:
+      pass
+    mod = e.kernel.func.__module__.split(".")[-1]
+    return (mod + "." + e.key.replace("__locals__", "/"), tuple(sorted(cl.items())))
+  return (e.kind, tuple(e.outs or ()))
+
+
+def flag_scalars(e):
+  """scalar launch arguments that carry flag words: {param label: value}"""
+  out = {}
+  if e.kind != "launch":
+    return out
+  for a, spec in zip(e.args, e.kernel.adj.args):
+    if any(t in spec.label for t in ("disableflags", "dsbl_", "gravity_enabled")) and isinstance(a, (int, bool)):
+      out[spec.label] = int(a)
+  return out
+
+
+def make_model(xml, dis, en):
+  import mujoco
+
+  import mujoco_warp as mjw
+
+  mjm = mujoco.MjModel.from_xml_string(xml)
+  mjm.opt.disableflags = dis
+  mjm.opt.enableflags = en
+  m = mjw.put_model(mjm)
+  d = mjw.make_data(mjm, nworld=1)
+  return mjm, m, d
+
+
+def trace(xml, dis, en, fn="step"):
+  import mujoco_warp as mjw
+  from checks import trace_c32
+
+  mjm, m, d = make_model(xml, dis, en)
+  with trace_c32.TraceRun(m, d) as tr:
+    getattr(mjw, fn)(m, d)
+  evs = [e for e in tr.events if e.kind not in ("while", "endwhile", "if", "endif", "else")]
+  return evs
+
+
+def is_scratch(s):
+  return s[0] in ("zero_", "fill_", "copy", "util") and all(o in SCRATCH for o in s[1])
+
+
+def P(*prefixes):
+  return lambda s: any(s[0].startswith(p) for p in prefixes)
+
+
+COLLISION = lambda s: s[0].startswith("collision_") or s == ("zero_", ("d.ncollision",)) or s == ("zero_", ("d.nacon",))
+CONTACTROWS = lambda s: s[0].startswith("constraint._efc_contact") or s[0].startswith("constraint._add_surface_vel") or s == ("zero_", ("d.efc.Jqvel",))
+EQ = P("constraint._equality_")
+FR = P("constraint._friction_")
+LIM = P("constraint._limit_")
+ACT = P("forward._actuator_force", "forward._tendon_actuator_force", "forward._qfrc_actuator")
+EULERDAMP = P("forward._compute_damping_deriv", "forward._euler_damp_qfrc", "smooth._small_cholesky_factorize_solve_block", "smooth._tile_cholesky_factorize_solve_block", "smooth._factor_solve")
+SENSOR = lambda s: s[0].startswith("sensor.") and "_energy" not in s[0]
+ENERGY = lambda s: "_energy" in s[0] or s[0].startswith("support.mul_m")
+NONE = lambda s: False
+
+
+def any_of(*fs):
+  return lambda s: any(f(s) for f in fs)
+
+
+# flag -> (required_removed, allowed_removed, allowed_added)
+def table(types, euler=True):
+  D = types.DisableBit
+  DERIV_DAMP = P("derivative._qderiv_tendon_damping")
+  DERIV_ACT = P("derivative._qderiv_actuator_passive_vel", "derivative._qderiv_actuator_passive_actuation")
+  ed = EULERDAMP if euler else NONE
+  t = {
+    ("d", int(D.CONSTRAINT)): (any_of(COLLISION, CONTACTROWS, EQ, FR, LIM), any_of(COLLISION, CONTACTROWS, EQ, FR, LIM), NONE),
+    ("d", int(D.EQUALITY)): (EQ, EQ, NONE),
+    ("d", int(D.FRICTIONLOSS)): (FR, FR, NONE),
+    ("d", int(D.LIMIT)): (LIM, LIM, NONE),
+    ("d", int(D.CONTACT)): (any_of(COLLISION, CONTACTROWS), any_of(COLLISION, CONTACTROWS), NONE),
+    ("d", int(D.SPRING)): (NONE, P("passive._flex_elasticity"), NONE),
+    ("d", int(D.DAMPER)): (ed, any_of(ed, NONE if euler else DERIV_DAMP), NONE),
+    ("d", int(D.GRAVITY)): (P("passive._gravity_force", "smooth._cacc_world"), any_of(P("passive._gravity_force", "smooth._cacc_world", "sensor._energy_pos_gravity"), lambda s: s[0].startswith("passive._qfrc_passive_kernel") and dict(s[1]).get("gravity_enabled") == 1), any_of(lambda s: s == ("zero_", ("d.cacc",)), lambda s: s[0].startswith("passive._qfrc_passive_kernel") and dict(s[1]).get("gravity_enabled") == 0)),
+    ("d", int(D.CLAMPCTRL)): (NONE, NONE, NONE),
+    ("d", int(D.WARMSTART)): (lambda s: s[0].startswith("solver._solve_init_dof") and dict(s[1]).get("WARMSTART") == 1, lambda s: s[0].startswith("solver._solve_init_dof"), lambda s: s[0].startswith("solver._solve_init_dof") and dict(s[1]).get("WARMSTART") == 0),
+    ("d", int(D.ACTUATION)): (any_of(ACT, P("forward._next_activation")), any_of(ACT, P("forward._next_activation"), NONE if euler else DERIV_ACT), lambda s: s in (("zero_", ("d.act_dot",)), ("zero_", ("d.actuator_force",)), ("zero_", ("d.qfrc_actuator",)))),
+    ("d", int(D.REFSAFE)): (NONE, NONE, NONE),
+    ("d", int(D.SENSOR)): (SENSOR, SENSOR, NONE),
+    ("d", int(D.EULERDAMP)): (ed, ed, NONE),
+    ("e", int(types.EnableBit.ENERGY)): (NONE, lambda s: s[0] == "zero_", ENERGY),
+  }
+  return t
+
+
+MODELS = {}
+
+
+def models():
+  from wsym import harvest
+
+  if not MODELS:
+    MODELS["arm-euler-dense"] = harvest.CORPUS["arm"].format(opt='integrator="Euler" jacobian="dense"', flag="")
+    MODELS["arm-implicitfast-sparse"] = harvest.CORPUS["arm"].format(opt='integrator="implicitfast" jacobian="sparse" cone="elliptic"', flag="")
+  return MODELS
+
+
+def write_replay(name, payload):
+  d = os.path.join(report.VERIF, "replays", PID)
+  os.makedirs(d, exist_ok=True)
+  path = os.path.join(d, f"{name}.json")
+  json.dump(payload, open(path, "w"), indent=1, default=str)
+  return path
+
+
+def unit_trace(mname):
+  def run(ctx):
+    from mujoco_warp._src import forward, types
+
+    xml = models()[mname]
+    ctx.encode(forward.step, forward.forward, forward.fwd_actuation, forward.euler)
+    ctx.notes.append("host level = side condition: concrete enumeration of flag words on one model; the claim that a flag-gated term removes exactly its contribution rests on the kernel-level solver queries")
+    base = trace(xml, 0, 0)
+    cb = collections.Counter(sig(e) for e in base)
+    tab = table(types, euler="Euler" in xml)
+    diffs = {}
+    nchk = 0
+    for (kind, b), (req, allow_rem, allow_add) in tab.items():
+      name = (types.DisableBit(b).name if kind == "d" else "enable-" + types.EnableBit(b).name)
+      t = trace(xml, b if kind == "d" else 0, b if kind == "e" else 0)
+      ct = collections.Counter(sig(e) for e in t)
+      rem, add = cb - ct, ct - cb
+      diffs[(kind, b)] = (rem, add)
+      bad = []
+      for s in rem:
+        if not allow_rem(s) and not is_scratch(s):
+          bad.append(f"unexpectedly removed: {s[0]}{dict(s[1]) if s[1] and isinstance(s[1][0], tuple) else list(s[1])}")
+      for s in add:
+        if not allow_add(s) and not is_scratch(s):
+          bad.append(f"unexpectedly added: {s[0]}{dict(s[1]) if s[1] and isinstance(s[1][0], tuple) else list(s[1])}")
+      for s in cb:
+        if req(s) and s[0] not in ("zero_", "fill_", "copy", "util") and ct.get(s, 0) >= cb[s]:
+          bad.append(f"still launched although the flag disables its stage: {s[0]}")
+      nchk += 1
+      for msg in bad:
+        key = f"{name}/" + msg.split(":")[0].replace(" ", "-") + "/" + msg.split(": ")[1].split("{")[0].split("[")[0]
+        path = write_replay(f"trace.{mname}.{name}", {"property": PID, "model": mname, "xml": xml, "flag": name, "problem": bad, "how": "trace mjw.step(m, d) with checks.trace_c32.TraceRun for disableflags=0 and for this flag; compare the multisets of launches"})
+        ctx.violation(key, f"step() with {name} toggled ({mname}): {msg} (MuJoCo: the flag switches exactly its own stage)", path)
+      # flag words reach the gating kernels unchanged
+      for e in t:
+        for label, v in flag_scalars(e).items():
+          want = None
+          if label == "opt_disableflags":
+            want = b if kind == "d" else 0
+          elif label == "dsbl_clampctrl":
+            want = (b if kind == "d" else 0) & int(types.DisableBit.CLAMPCTRL)
+          elif label == "dsbl_spring":
+            want = int(bool((b if kind == "d" else 0) & int(types.DisableBit.SPRING)))
+          elif label == "dsbl_damper":
+            want = int(bool((b if kind == "d" else 0) & int(types.DisableBit.DAMPER)))
+          elif label == "gravity_enabled":
+            want = int(not ((b if kind == "d" else 0) & int(types.DisableBit.GRAVITY)))
+          if want is not None and int(bool(v)) != int(bool(want)) if label != "opt_disableflags" else (want is not None and v != want):
+            path = write_replay(f"flagword.{mname}.{name}", {"property": PID, "model": mname, "flag": name, "kernel": e.key, "param": label, "value": v, "expected": want})
+            ctx.violation(f"{name}/flag-word/{e.key}.{label}", f"{e.key} receives {label}={v} with {name} toggled (expected {want})", path)
+    # a few pairs: the effect of two flags is the union of their effects
+    D = types.DisableBit
+    pairs = [(D.EQUALITY, D.LIMIT), (D.GRAVITY, D.SENSOR), (D.CONTACT, D.FRICTIONLOSS), (D.ACTUATION, D.WARMSTART)]
+    for a, b2 in pairs:
+      t = trace(xml, int(a) | int(b2), 0)
+      ct = collections.Counter(sig(e) for e in t)
+      rem, add = cb - ct, ct - cb
+      ra, aa = diffs[("d", int(a))]
+      rb, ab = diffs[("d", int(b2))]
+      exp_rem, exp_add = ra + rb, aa + ab
+      strip = lambda c: collections.Counter({k: v for k, v in c.items() if not is_scratch(k)})
+      if strip(rem) != strip(exp_rem) or strip(add) != strip(exp_add):
+        path = write_replay(f"trace.{mname}.{a.name}+{b2.name}", {"property": PID, "model": mname, "flags": [a.name, b2.name], "removed": [str(k) for k in strip(rem)], "expected_removed": [str(k) for k in strip(exp_rem)], "added": [str(k) for k in strip(add)], "expected_added": [str(k) for k in strip(exp_add)]})
+        ctx.violation(f"{a.name}+{b2.name}/not-the-union", f"step() with {a.name}|{b2.name}: trace difference is not the union of the single-flag differences", path)
+      nchk += 1
+    ctx.notes.append(f"{nchk} flag words traced on {mname}; baseline {sum(cb.values())} launches / fills")
+    sess = ctx.session([])
+    ctx.reach(sess, "twin:baseline-nonempty", z3.BoolVal(sum(cb.values()) > 50))
+
+  return (f"host/trace/{mname}", run)
+
+
+# ---------------------------------------------------------------------------------- ACTUATION: activations must not advance
+
+
+ACT_XML = """<mujoco><option><flag actuation="disable"/></option><worldbody>
+<body pos="0 0 1"><joint name="j" damping="0.1"/><geom size=".1"/></body></worldbody>
+<actuator><general joint="j" dyntype="{dyn}" dynprm="0.5" actlimited="true" actrange="{lo} {hi}"/></actuator></mujoco>"""
+
+
+def unit_actuation_act(ctx):
+  """MuJoCo's mj_advance skips the activation update when ACTUATION is disabled.  mujoco_warp zeroes act_dot (fwd_actuation)
+  and still launches _next_activation; solver query over that kernel: with act_dot == 0 the activation is unchanged."""
+  from checks import lib
+  from mujoco_warp._src import forward, types
+
+  k = forward._next_activation
+  ctx.encode(k, forward.fwd_actuation)
+  xml = ACT_XML.format(dyn="integrator", lo=-1, hi=1)
+  evs = trace(xml, int(types.DisableBit.ACTUATION), 0)
+  launched = [e for e in evs if e.kind == "launch" and e.key == "_next_activation"]
+  zeroed = any(sig(e) == ("zero_", ("d.act_dot",)) for e in evs)
+  ctx.notes.append(f"side condition (trace): with ACTUATION disabled step() launches _next_activation {len(launched)}x; act_dot zeroed by fwd_actuation: {zeroed}")
+  ctx.assume("act_dot == 0 for every activation (fwd_actuation zeroes it when ACTUATION is disabled: trace)", "thread's own accesses in bounds", "actuator_actnum >= 0")
+  ctx.bound(unroll=3)
+  kt = lib.kernel_thread(k, unroll=3)
+  w, u = kt.tid
+  j = z3.Int("j")
+  fx = z3.Real("fx")
+  fm = z3.Function("fmul", z3.RealSort(), z3.RealSort(), z3.RealSort())
+  zero = [z3.ForAll([fx], fm(0, fx) == 0), z3.ForAll([fx], fm(fx, 0) == 0)]
+  adr, num = kt.pre("actuator_actadr", u), kt.pre("actuator_actnum", u)
+  dt_ = kt.pre("actuator_dyntype", u)
+  pre = [kt.pre("act_dot_in", w, j) == 0, j >= adr, j < adr + num, num >= 0, adr >= 0, z3.Or(dt_ == int(types.DynType.INTEGRATOR), dt_ == int(types.DynType.FILTER), dt_ == int(types.DynType.FILTEREXACT)), kt.cell("actuator_actrange").shape[0] >= 1, kt.pre("actuator_actrange", w % kt.cell("actuator_actrange").shape[0], u, k=0) <= kt.pre("actuator_actrange", w % kt.cell("actuator_actrange").shape[0], u, k=1)]
+  ctx.bound(dyntype="integrator / filter / filterexact (the DC-motor bristle state also keeps evolving: same defect)")
+  sess = ctx.session(kt.bg + pre + zero)
+  ctx.reach(sess, "twin:has-activation", True)
+  if not launched:
+    ctx.notes.append("_next_activation is not launched with ACTUATION disabled: nothing to decide")
+    return
+  a0, a1 = kt.pre("act_in", w, j), kt.post("act_out", w, j)
+  rid = w % kt.cell("actuator_actrange").shape[0]
+  names = {"world": w, "act": u, "j": j, "act0": a0, "limited": kt.pre("actuator_actlimited", u), "lo": kt.pre("actuator_actrange", rid, u, k=0), "hi": kt.pre("actuator_actrange", rid, u, k=1), "dyntype": kt.pre("actuator_dyntype", u)}
+
+  def rp(model):
+    import subprocess
+    import sys
+
+    lo, hi, a = [float(kh.mval(model, names[x])) for x in ("lo", "hi", "act0")]
+    side = 1 if a > hi else (-1 if a < lo else 0)
+    if not (lo < hi) or abs(lo) > 1e3 or abs(hi) > 1e3 or (hi - lo) < 1e-3:
+      lo, hi = -1.0, 1.0
+    a = hi + 2.0 if side > 0 else (lo - 2.0 if side < 0 else 0.5 * (lo + hi))
+    dyn = {1: "integrator", 2: "filter", 3: "filterexact"}.get(int(kh.mval(model, names["dyntype"])), "integrator")
+    path = write_replay("actuation_act", {"property": PID, "xml": ACT_XML.format(dyn=dyn, lo=lo, hi=hi), "act0": a, "how": "python replays/C32/actuation_act.py replays/C32/actuation_act.json : mj_step vs mjw.step with actuation disabled, compare act"})
+    sp = os.path.join(report.VERIF, "replays", PID, "actuation_act.py")
+    open(sp, "w").write(ACT_REPLAY)
+    p = subprocess.run([sys.executable, sp, path], capture_output=True, text=True, timeout=900)
+    line = [l for l in p.stdout.splitlines() if l.startswith("RESULT ")]
+    if not line:
+      raise RuntimeError(p.stderr[-600:])
+    r = json.loads(line[-1][7:])
+    payload = json.load(open(path))
+    payload["result"] = r
+    json.dump(payload, open(path, "w"), indent=1)
+    return abs(r["mujoco"] - r["mjwarp"]) > 1e-5, path
+
+  ctx.prove(sess, "actuation-disabled/activation-unchanged", a1 == a0, names=names, replay=rp, desc="with ACTUATION disabled mujoco_warp still runs _next_activation, which clamps act into actrange; MuJoCo's mj_advance leaves act untouched")
+
+
+ACT_REPLAY = r"""
+import json, sys
+import numpy as np, mujoco, warp as wp
+wp.config.quiet = True
+import mujoco_warp as mjw
+spec = json.load(open(sys.argv[1]))
+mjm = mujoco.MjModel.from_xml_string(spec["xml"])
+mjd = mujoco.MjData(mjm); mjd.act[:] = spec["act0"]; mjd.ctrl[:] = 0.5
+m = mjw.put_model(mjm); d = mjw.put_data(mjm, mjd)
+mujoco.mj_step(mjm, mjd)
+mjw.step(m, d)
+print("RESULT " + json.dumps({"mujoco": float(mjd.act[0]), "mjwarp": float(d.act.numpy()[0, 0])}))
+"""
+
+
 def units(tier):
-  return []
+  us = [unit_trace("arm-euler-dense")]
+  if tier == "thorough":
+    us.append(unit_trace("arm-implicitfast-sparse"))
+  us.append(("host/actuation-act", unit_actuation_act))
+  return us
